@@ -20,6 +20,9 @@ run     -> per case {"res": ..., "pops": [...]}   (the i-th pop takes the elemen
 explore -> per case {"results": [distinct final results], "states": n, "runs": n,
            "truncated": bool}: EVERY pop order, explored as a graph over
            (queue, lattice values) states read from the frame of `run`.
+A "stmts" case has "src": [source text per block], "pred": [branch predicate source or null
+per block] instead of use/def: the blocks hold these real statements and CFG.analyze runs
+BB.compute_variable_stats on them; its result has a 4th component [[used, assigned] per block].
 Results: live -> [sorted keys per block]; ass -> [[def per block], [maybe per block]];
 analyze -> [live, def, maybe]."""
 import ast
@@ -172,9 +175,14 @@ def build(case):
 def run_case(case, ctl1, ctl2=None):
     c = build(case)
     kind = case["kind"]
-    if kind == "analyze":
+    if kind in ("analyze", "stmts"):
         for i, b in enumerate(c.bbs):
-            b.statements = stmt_for(case["use"][i], case["def"][i])
+            if kind == "stmts":   # arbitrary real statements (+ branch predicate) per block
+                b.statements = ast.parse(case["src"][i]).body
+                if case["pred"][i]:
+                    b.branch_pred = ast.parse(case["pred"][i], mode="eval").body
+            else:
+                b.statements = stmt_for(case["use"][i], case["def"][i])
         nm = lambda xs: [f"v{x}" for x in xs]
         # CFG.analyze runs liveness first, then assignment: two controllers in sequence
         class Seq(Controller):
@@ -185,6 +193,11 @@ def run_case(case, ctl1, ctl2=None):
                 return which.choose(items, frame)
         Sched.ctl = Seq()
         stats = c.analyze(set(nm(case["D0"])), set(nm(case["M0"])), nm(case["inout"]))
+        un = lambda s: sorted(int(x[1:]) for x in s)
+        if kind == "stmts":
+            return [[un(c.live_before[b]) for b in c.bbs], [un(c.ass_before[b]) for b in c.bbs],
+                    [un(c.maybe_ass_before[b]) for b in c.bbs],
+                    [[un(stats[b].used), un(stats[b].assigned)] for b in c.bbs]]
         for i, b in enumerate(c.bbs):   # the real stats must be the requested ones (+ inout at exit)
             exp_use = set(nm(case["use"][i])) | (set(nm(case["inout"])) if i == 1 else set())
             assert set(stats[b].used) == exp_use and set(stats[b].assigned) == set(nm(case["def"][i])), (i, stats[b])
@@ -221,7 +234,7 @@ def do_explore(case, max_states):
     """All pop orders.  For 'analyze' the two analyses are explored independently (the
     second under the default order while the first varies, and vice versa)."""
     results, states, runs, truncated = [], 0, 0, False
-    phases = [0, 1] if case["kind"] == "analyze" else [0]
+    phases = [0, 1] if case["kind"] in ("analyze", "stmts") else [0]
     for phase in phases:
         seen, stack, memo_ok = set(), [[]], [True]
         while stack:
